@@ -129,7 +129,38 @@ def streams(rng, tier):
                      "after the last head, run on a thread with a 192 KiB stack: output == the documented notation (complete items), within the "
                      "size bound, no crash (pending work must not live on the call stack); compared with the model up to depth 4000")
     s1.shrinkable = s2.shrinkable = s3.shrinkable = False
-    return [s1, s2, s3]
+    # the second way to obtain a Tokenizer: Decoder::tokens() of a decoder that has already been advanced
+    pops = []
+    for t in trees[:1200 if q else 12000]:
+        e = W.enc(t)
+        if disp.MARK in e: continue
+        pre = rng.choice([b"\x18\x2a", b"\x00", b"\x82\x01\x02", b"\xff\xff\x1c", b"\x9f", gen.rand_bytes(rng, rng.randint(1, 5))])
+        pops.append(f"displayat {len(pre)} {(pre + e).hex()}")
+        pops.append(f"displayat 0 {e.hex()}")
+    def judge_at(op, impl, model, spec):
+        if " | " not in impl:
+            return "violation"
+        a, b = impl.split(" | ")
+        return "ok" if a == b else "violation"
+    s4 = Stream("display-from-position", "hcore", pops, model_ops=["nop"] * len(pops), judge=judge_at,
+                rule="displayat: Display of Decoder::tokens() taken at position p of a buffer == display(&buffer[p..]) for well-formed items "
+                     "behind arbitrary leading bytes (both sides are the same build; the right side is what wellformed-notation judges)",
+                nontrivial=lambda op, impl: " | " in impl)
+    s4.shrinkable = False
+    # many items of one kind in ONE input (whatever the renderer counts per tag / container / string must not add up)
+    mops = []
+    for n in (100, 126, 127, 128, 129, 300, 1000):
+        for mk, key in ((lambda i: ("tag", 0, 1, ("uint", 0, i % 24)), "tags"), (lambda i: ("arrayI", []), "iarr"), (lambda i: ("array", 0, []), "arr"),
+                        (lambda i: ("mapI", []), "imap"), (lambda i: ("bytesI", []), "ibytes"), (lambda i: ("textI", [(0, b"a")]), "itext"),
+                        (lambda i: ("tag", 0, 2, ("arrayI", [("tag", 0, 3, ("uint", 0, 0))])), "tag-nests")):
+            t = ("array", W.min_width(n), [mk(i) for i in range(n)])
+            key2 = f"#R={len(TREES)}"
+            TREES[key2] = t
+            mops.append(f"display {W.enc(t).hex()} {key2}")
+    s5 = Stream("many-items", "hcore", mops, judge=judge_tree,
+                rule="display of arrays of 100..1000 tags / empty containers / chunked strings / tag nests == the notation rendered from the tree")
+    s5.shrinkable = False
+    return [s1, s2, s3, s4, s5]
 
 
 def replay_streams(rp):
@@ -137,5 +168,7 @@ def replay_streams(rp):
     if "#D=" in full:
         d = int(full.split("#D=")[1].split(":")[1])
         return [Stream("replay", "hcore", [full], model_ops=[" ".join(full.split(" ")[:2]) if d <= DEEP_MODEL_MAX else "display 00"], judge=judge_deep)]
+    if full.startswith("displayat"):
+        return [Stream("replay", "hcore", [full], model_ops=["nop"], judge=lambda o, i, m, s: "ok" if " | " in i and i.split(" | ")[0] == i.split(" | ")[1] else "violation")]
     op = " ".join(full.split(" ")[:2])
     return [Stream("replay", "hcore", [op], judge=judge_total)]
